@@ -5,6 +5,7 @@ package main
 // (what is durable when) is a runtime fault model and is not decided.
 
 import (
+	"go/token"
 	"go/types"
 	"strings"
 
@@ -197,6 +198,13 @@ func c04Publish(w *World, r *Report, id, slug string) {
 			if !strings.Contains(a0, "updating") || strings.Contains(a1, "updating") {
 				ob.Violate("replace-rename-direction", ren.Pos(), "the rename goes from `"+a0+"` to `"+a1+"`")
 			}
+			// the switch is the rename alone: nothing removes a file on the way (removing the
+			// published file first leaves no 'current' at all if the process dies before the rename)
+			eachInstr(repl, func(in ssa.Instruction) {
+				if isVfsCall(in, "Remove") || isVfsCall(in, "RemoveAll") {
+					ob.Violate("replace-removes-first", in.Pos(), "the replace step removes `"+Expr(callOf(in).Args[len(callOf(in).Args)-1])+"`: the switch is no longer one atomic rename - a crash between the two steps leaves no 'current' file and the next start opens an empty table")
+				}
+			})
 		}
 		c04ErrorsNotDropped(w, ob, repl, "replace")
 	}
@@ -435,6 +443,119 @@ func c04InstallOrder(w *World, r *Report, a *FsmA, id, slug string) {
 		}
 		order(save, repl, "save-before-replace")
 		order(repl, swap, "replace-before-swap")
+		// once published, the new DB and its directory are never torn down again - not directly
+		// and not by a deferred clean-up that fires on a late error
+		{
+			newDB := plainCall(swap).Args[1]
+			var newDir string
+			for _, b := range builds {
+				if c := plainCall(b); c != nil && StaticCallee(c) != nil && StaticCallee(c).Name() == "openDB" && len(c.Args) > 0 {
+					newDir = strings.TrimPrefix(Expr(c.Args[len(c.Args)-1]), "^")
+				}
+			}
+			if newDir == "" {
+				// the checkpoint recoverer creates the directory itself
+				for _, in := range find(func(in ssa.Instruction) bool { return isVfsCall(in, "MkdirAll") }) {
+					newDir = strings.TrimPrefix(Expr(callOf(in).Args[0]), "^")
+				}
+			}
+			rootVar := func(v ssa.Value) ssa.Value {
+				for d := 0; d < 4; d++ {
+					u, ok := v.(*ssa.UnOp)
+					if !ok || u.Op != token.MUL {
+						break
+					}
+					v = u.X
+					if fv, ok := v.(*ssa.FreeVar); ok {
+						if b := closureBinding(fv.Parent(), fv); b != nil {
+							v = b
+						}
+					}
+				}
+				return v
+			}
+			dbVar := rootVar(newDB)
+			isTeardown := func(in ssa.Instruction) string {
+				c := callOf(in)
+				if c == nil {
+					return ""
+				}
+				if CalleeName(c) == "(*"+pebblePath+".DB).Close" && len(c.Args) > 0 {
+					if c.Args[0] == newDB || (dbVar != newDB && rootVar(c.Args[0]) == dbVar) {
+						return "closes the new DB"
+					}
+				}
+				if (isVfsCall(in, "RemoveAll") || isVfsCall(in, "Remove")) && newDir != "" {
+					if strings.TrimPrefix(Expr(c.Args[0]), "^") == newDir {
+						return "removes the new DB directory"
+					}
+				}
+				return ""
+			}
+			if p := (&Walk{Target: func(x ssa.Instruction) bool { return isTeardown(x) != "" }}).Find(after(repl)); p != nil {
+				ob.Violate("teardown-after-publish@"+name, instrPos(p.Hit), name+" "+isTeardown(p.Hit)+" after the new directory was published", w.PathString(p)...)
+			}
+			lateError := (&Walk{Target: func(x ssa.Instruction) bool {
+				ret, ok := x.(*ssa.Return)
+				return ok && !isSuccessReturn(ret)
+			}}).Find(after(repl)) != nil
+			eachInstr(fn, func(in ssa.Instruction) {
+				d, ok := in.(*ssa.Defer)
+				if !ok {
+					return
+				}
+				var body *ssa.Function
+				switch v := d.Call.Value.(type) {
+				case *ssa.MakeClosure:
+					body, _ = v.Fn.(*ssa.Function)
+				case *ssa.Function:
+					body = v
+				}
+				what := ""
+				if body != nil {
+					eachInstr(body, func(x ssa.Instruction) {
+						if t := isTeardown(x); t != "" {
+							what = t
+						}
+					})
+				} else if t := isTeardown(in); t != "" {
+					what = t
+				}
+				// a clean-up disarmed by a flag that is set once the directory is published
+				if what != "" && lateError && body != nil {
+					for _, fv := range body.FreeVars {
+						bt, isB := deref(fv.Type()).Underlying().(*types.Basic)
+						if !isB || bt.Kind() != types.Bool {
+							continue
+						}
+						flag := closureBinding(body, fv)
+						if flag == nil {
+							continue
+						}
+						isFlagStore := func(x ssa.Instruction) bool {
+							st, ok := x.(*ssa.Store)
+							return ok && st.Addr == flag
+						}
+						escapes := (&Walk{Barrier: isFlagStore, Target: func(x ssa.Instruction) bool {
+							ret, ok := x.(*ssa.Return)
+							return ok && !isSuccessReturn(ret)
+						}}).Find(after(repl)) != nil
+						tested := false
+						eachInstr(body, func(x ssa.Instruction) {
+							if iff, ok := x.(*ssa.If); ok && strings.Contains(Expr(iff.Cond), "^") && strings.Contains(Expr(iff.Cond), fv.Name()) {
+								tested = true
+							}
+						})
+						if !escapes && tested {
+							what = ""
+						}
+					}
+				}
+				if what != "" && lateError {
+					ob.Violate("teardown-after-publish@"+name, in.Pos(), name+" defers a clean-up that "+what+"; it also fires when a step after the publication fails (the final removal of the old directories): the replica is left with neither the old nor the new state")
+				}
+			})
+		}
 		// the last build step precedes save
 		for _, b := range builds {
 			ob.Site(b.Pos(), "DB build step in "+name)
